@@ -29,26 +29,26 @@ import (
 	"tailscale.com/client/tailscale/apitype"
 )
 
-const c17WireTolerance = 2500 // ms a real upload may lag behind its instant on the model's grid
+const c17WireTolerance = 3500 // ms a real upload may lag behind its instant on the model's grid
 
 // c17WiringFamily: the fixed family (the calls vary with the seed).
 func c17WiringFamily(seed uint64) []c17Input {
 	r := NewRand(seed, 171717)
 	mk := func(kind string, wiring string, reopen bool, prior []c17Op, ops []c17Op, cancel uint64) c17Input {
-		return c17Input{Kind: kind, Wiring: wiring, Reopen: reopen, Prior: prior, Ops: ops, Cancel: cancel, Until: 61500}
+		return c17Input{Kind: kind, Wiring: wiring, Reopen: reopen, Prior: prior, Ops: ops, Cancel: cancel, Until: 65000}
 	}
 	two := []c17Op{{Kind: "put", Name: "k", Val: 1}, {Kind: "put", Name: "k", Val: 2}}
-	lateKinds := []c17Op{{T: 1500, Kind: "delver", Name: "k", Ver: 2}, {T: 1500, Kind: "activate", Name: "k", Ver: 2}, {T: 1500, Kind: "put", Name: "k", Val: 3}, {T: 1500, Kind: "del", Name: "k"}}
+	lateKinds := []c17Op{{T: 4000, Kind: "delver", Name: "k", Ver: 2}, {T: 4000, Kind: "activate", Name: "k", Ver: 2}, {T: 4000, Kind: "put", Name: "k", Val: 3}, {T: 4000, Kind: "del", Name: "k"}}
 	return []c17Input{
-		mk("wiring:first-upload,context-ends-early", "db", false, nil, nil, 2700),
-		mk("wiring:write-then-context-ends,nothing-after", "db", false, nil, []c17Op{{T: 1500, Kind: "put", Name: "k", Val: 1}}, 2700),
-		mk("wiring:write-uploaded-one-interval-later", "db", false, nil, []c17Op{{T: 1500, Kind: "put", Name: "k", Val: 1 + r.IntN(4)}}, 61000),
-		mk("wiring:quiet-for-an-interval", "db", false, nil, nil, 61000),
-		mk("wiring:restart-opened-by-New,no-call", "path", true, two, nil, 61000),
-		mk("wiring:restart-handle-given,late-change-b", "db", true, two, []c17Op{lateKinds[r.IntN(len(lateKinds))]}, 61000),
-		mk("wiring:restart-handle-given,no-call,context-ends-early", "db", true, two, nil, 2700),
-		mk("wiring:restart-handle-given,late-change", "db", true, two, []c17Op{lateKinds[r.IntN(len(lateKinds))]}, 61000),
-		mk("wiring:restart-handle-given,late-change,context-ends-early", "db", true, two, []c17Op{lateKinds[r.IntN(len(lateKinds))]}, 2700),
+		mk("wiring:first-upload,context-ends-early", "db", false, nil, nil, 8000),
+		mk("wiring:write-then-context-ends,nothing-after", "db", false, nil, []c17Op{{T: 4000, Kind: "put", Name: "k", Val: 1}}, 8000),
+		mk("wiring:write-uploaded-one-interval-later", "db", false, nil, []c17Op{{T: 4000, Kind: "put", Name: "k", Val: 1 + r.IntN(4)}}, 64500),
+		mk("wiring:quiet-for-an-interval", "db", false, nil, nil, 64500),
+		mk("wiring:restart-opened-by-New,no-call", "path", true, two, nil, 64500),
+		mk("wiring:restart-handle-given,late-change-b", "db", true, two, []c17Op{lateKinds[r.IntN(len(lateKinds))]}, 64500),
+		mk("wiring:restart-handle-given,no-call,context-ends-early", "db", true, two, nil, 8000),
+		mk("wiring:restart-handle-given,late-change", "db", true, two, []c17Op{lateKinds[r.IntN(len(lateKinds))]}, 64500),
+		mk("wiring:restart-handle-given,late-change,context-ends-early", "db", true, two, []c17Op{lateKinds[r.IntN(len(lateKinds))]}, 8000),
 	}
 }
 
